@@ -6,6 +6,10 @@
 (*                                           left it                       *)
 (*   call  {name, typ, w, h, items}          a controller call starts      *)
 (*   ret   {out, obs}                        it returned; projection after *)
+(*   bigcall {name, typ, w, h, n} / bigret {out, st, typ, n_pages,         *)
+(*            first_diff}   a send of tens of thousands of pages, recorded *)
+(*            as a digest: how many pages the sign holds and the index of  *)
+(*            the first one that differs from what was sent (-1: none)     *)
 (* The postconditions are System!Post*; they are evaluated on the recorded *)
 (* observations only.                                                      *)
 (***************************************************************************)
@@ -39,6 +43,19 @@ Ret == /\ IsEvent("ret")
             [] OTHER -> E.out # "Panic"
        /\ prev' = E.obs /\ call' = NoCall /\ UNCHANGED flip
 
-Next == Prior \/ CallEv \/ Ret
+BigCall == /\ IsEvent("bigcall")
+           /\ call.name = "" /\ E.name = "send_pages" /\ prev.typ = E.typ
+           /\ call' = [name |-> "big", typ |-> E.typ, w |-> E.n, h |-> 0, items |-> <<>>]
+           /\ UNCHANGED <<flip, prev>>
+
+BigRet == /\ IsEvent("bigret")
+          /\ call.name = "big"
+          /\ E.out = (IF flip = "Automatic" THEN "Ok:Automatic" ELSE "Ok:Manual")
+          /\ E.st = (IF flip = "Automatic" THEN "ShowingPages" ELSE "PageLoaded")
+          /\ E.typ = call.typ
+          /\ E.n_pages = call.w /\ E.first_diff = -1              \* exactly those pages, in order, with identical bytes
+          /\ prev' = [st |-> E.st, typ |-> E.typ, pages |-> <<>>] /\ call' = NoCall /\ UNCHANGED flip
+
+Next == Prior \/ CallEv \/ Ret \/ BigCall \/ BigRet
 Spec == Init /\ [][Next]_vars
 =============================================================================
